@@ -533,7 +533,7 @@ pub fn case(t: &mut Tape, ctx: &CaseCtx) -> CaseResult {
 
 pub fn run(mut run: Run) -> i32 {
     run.replay_committed(&case);
-    run.random("builder op sequences", &[], run.n(30_000, 600_000), 200, &case);
+    run.random("builder op sequences", &[], run.n(300_000, 6_000_000), 200, &case);
     run.finish(
         RULE,
         500,
